@@ -130,6 +130,13 @@ func NewRun(c *Cfg) *Run {
 		r.ids[i] = register(&r.w, k)
 	}
 	r.m = &Model{cfg: c}
+	if c.PreloadDump != nil {
+		d := c.PreloadDump()
+		r.w.LoadEntities(d)
+		for _, idx := range d.Alive {
+			r.m.Slots = append(r.m.Slots, MEnt{H: d.Entities[idx], Alive: true})
+		}
+	}
 	if c.Listener {
 		r.lis = &recListener{r: r}
 		r.w.SetListener(r.lis)
